@@ -509,6 +509,30 @@ func main() {
 		seed, _ := strconv.ParseUint(os.Args[2], 10, 64)
 		n, _ := strconv.Atoi(os.Args[3])
 		runFuzz(seed, n, os.Args[4])
+	case "tokseq": // <seed> <n> <outdir>
+		seed, _ := strconv.ParseUint(os.Args[2], 10, 64)
+		n, _ := strconv.Atoi(os.Args[3])
+		out := openOut(os.Args[4])
+		for i := 0; i < n; i++ {
+			r := NewRng(seed, uint64(i))
+			prefix := r.Pick(prefixes)
+			src, want := genTokSeq(r, prefix)
+			res, toks := implScan(prefix, nil, src)
+			c17 := ""
+			if !strings.HasPrefix(res, "OK") {
+				c17 = fmt.Sprintf("a written token sequence was rejected (%s): %q", res, src)
+			} else {
+				c17 = checkTokSeq(toks, want)
+				if c17 == "" {
+					c17, _ = oracleScan(src, toks)
+				}
+				if c17 != "" {
+					c17 += fmt.Sprintf(" [source %q]", src)
+				}
+			}
+			out.put(fmt.Sprintf("scan %s %s %s", encStr(prefix), encStrs(defTags(nil)), encStr(src)), res, verdict("C17", c17), verdict("C08", panicOnly(res)))
+		}
+		out.close()
 	case "plain": // <seed> <n> <outdir>
 		seed, _ := strconv.ParseUint(os.Args[2], 10, 64)
 		n, _ := strconv.Atoi(os.Args[3])
